@@ -35,6 +35,15 @@ CLAIMED = {
             "from_total_nanoseconds = from_timespec of the pair as verified compositions.", "5/C16", ""),
 }
 
+CLAIMED.update({
+    "C07": ("proof", "Every function under contract (the whole extracted file: ~105 real functions of utils/const_fns.rs, datetime/mod.rs, timezone/mod.rs, timezone/rule.rs) is verified by Verus in exec mode, where each + - * / % cast, index, slice, unreachable!() and loop generates an obligation: no panic, no overflow with overflow checks on, no out-of-bounds, termination, for all inputs admitted by preconditions that are `true` or constructor-established type invariants. "
+            "NOT covered and excluded from the claim: both parsers, datetime/find.rs, Display/format_date_time, TimeZone/TimeZoneSettings, TzAsciiStr::as_bytes/as_str, allocation bounds, builds without overflow checks.", "5/C07",
+            "This is a claim about the named function set only (coverage.functions_under_contract); the uncovered public operations are listed in coverage.extraction.not_under_contract. "),
+    "C11": ("proof", "AlternateTime::new returns Ok exactly when both offsets are in (-25h, 26h), both times within +-7d and the three start/end relations never change sign over all integer years; each error kind names the first violated condition. Pairs of Jn / n notations: complete proof down to the calendar axioms. "
+            "Pairs involving Mm.w.d: the real functions are proved equal to the audited decision procedures (any behavioural change fails an obligation); that these procedures decide order stability is an ASSUMED lemma (axiom_mj_stable / axiom_mm_stable), supported by the design-phase exhaustive comparison (131M decisions) and the bounded probe only.", "5/C11",
+            "Assumed: axiom_mj_stable, axiom_mm_stable (listed in evidence.assumptions). "),
+})
+
 NA = {
     "C05": "find_date_time is outside Verus's subset (FnMut closure with captured cache, iterator adapters, impl Trait) and every bounded Kani formulation probed ran out of time/memory (DESIGN.md section 5 and 9); its ingredients are proved under C02/C03/C04/C12/C14",
     "C06": "same function as C05; not decidable with the available back ends",
